@@ -103,6 +103,30 @@ def scan_sites():
     return sites, err
 
 
+SCANNER_EXPECT = {"copyMap": "pure", "namedMap": "pure", "sortedKeys": "collect_sorted", "sortedLater": "escaping", "sum": "escaping",
+                  "unsortedKeys": "escaping", "writes": "escaping", "first": "escaping"}
+
+
+def scanner_selftest():
+    """the scanner on a synthetic package with one loop of every shape (harness/c19scan/testdata/scantest) -> error text or ''"""
+    try:
+        binary = os.path.join(common.BUILD, "bin", "c19scan")
+        if not os.path.exists(binary):
+            return ""
+        d = os.path.join(common.HARNESS, "c19scan", "testdata", "scantest")
+        env = dict(os.environ)
+        env.update({"GOWORK": "off", "GOFLAGS": "", "GOPROXY": "off", "GOSUMDB": "off", "GOTOOLCHAIN": "local"})
+        p = subprocess.run([binary, d, "./..."], stdout=subprocess.PIPE, stderr=subprocess.PIPE, text=True, env=env, timeout=300, cwd=d)
+        if p.returncode != 0:
+            return "scanner self-test failed to run: " + p.stderr[-400:]
+        got = {x["func"]: x["class"] for x in json.loads(p.stdout)["sites"]}
+        if got != SCANNER_EXPECT:
+            return "scanner self-test: classified %r, expected %r" % (got, SCANNER_EXPECT)
+    except Exception as ex:  # noqa
+        return "scanner self-test: %r" % (ex,)
+    return ""
+
+
 def coq_str(t):
     return '"' + t.replace('"', '""') + '"'
 
@@ -764,6 +788,9 @@ def site_correspondence(out):
     if err:
         out.mismatches.append({"what": "map-iteration scan failed: " + err[:600], "case": None})
         return sites
+    st = scanner_selftest()
+    if st:
+        out.mismatches.append({"what": st, "case": None})
     txt = open(os.path.join(common.COQ, "theories", "C19", "Classify.v")).read()
     table = set(re.findall(r'mkEntry\s+"([^"]*)"\s+"([^"]*)"\s+"([^"]*)"', txt))
     have = set((x["file"], x["func"], x["hash"]) for x in sites)
@@ -817,7 +844,7 @@ def correspond(tier, seed, model_ok):
     out = Outcome()
     out.stats = []
     r = Rng(seed)
-    n = 6 if tier == "quick" else 60
+    n = 6 if tier == "quick" else 120
     workloads = [gen_workload(r.fork(i), i, tier) for i in range(n)]
     corpus = [c for c in common.load_corpus(PROP)]
     sites = site_correspondence(out)
@@ -825,6 +852,17 @@ def correspond(tier, seed, model_ok):
     nmodel = 0
     if model_ok:
         nmodel = model_correspondence(pairs, corpus + workloads, out)
+        # the comparison machinery itself: perturbed copies of this run's observations must all be flagged
+        try:
+            st = selftest(pairs, corpus + workloads)
+            bad = sorted(k for k, ok in st.items() if not ok)
+            if bad:
+                out.mismatches.append({"what": "machinery self-test: perturbations not flagged: %s" % bad, "case": None})
+            out.xnotes.add("machinery self-test: %d/%d perturbed observations flagged" % (sum(1 for x in st.values() if x), len(st)))
+        except StopIteration:
+            pass
+        except Exception as ex:  # noqa
+            out.xnotes.add("machinery self-test not run: %r" % (ex,))
     else:
         out.model_ran = False
     out.rule = ("case = one workload (5-8 accounts, 7 pools of three kinds, 30+ blocks of 2-7 signed transactions of bank/lockup/gamm/poolmanager/"
